@@ -6,6 +6,8 @@
      <<"init", b>>          b.init_processing_pipeline()
      <<"rule", b, kind>>    load a rule of `kind` and convert it with b.convert_rule()
      <<"coll", b, kind>>    the same through b.convert(collection) (collecting errors)
+     <<"opt", kind>>        ANOTHER backend object of the class, created with a backend option and without user
+                            pipeline, converts a rule of `kind` (probe optph asks for the option's pipeline variable)
    A history is enabled iff backends are created before they are used.  All histories up to
    the bound are enumerated (recursive set Hist), longer ones sampled.                    *)
 EXTENDS Integers, Sequences, FiniteSets, SequencesExt, Json, IOUtils, Randomization, TLC
@@ -13,11 +15,12 @@ VARIABLE x
 Quick == IOEnv.VERIF_TIER = "quick"
 Backends == {"A", "B"}
 Kinds == {"ok1", "okstate", "failP", "failPH", "failC", "neqok", "neqfail", "direct", "phfile"}
-ProbeKinds == {"ok1", "okstate", "neqok", "ok2", "direct", "phfile"}
+ProbeKinds == {"ok1", "okstate", "neqok", "ok2", "direct", "phfile", "optph"}
 Ops(have) == {<<"new", b, s>> : b \in Backends \ have, s \in BOOLEAN}
              \cup {<<"init", b>> : b \in have}
              \cup {<<"rule", b, k>> : b \in have, k \in Kinds}
              \cup {<<"coll", b, k>> : b \in have, k \in {"okstate", "failPH", "neqfail"}}
+             \cup {<<"opt", k>> : k \in {"ok1", "failPH"}}
 Have(h) == {h[i][2] : i \in {j \in 1..Len(h) : h[j][1] = "new"}}
 RECURSIVE Hist(_, _)
 Hist(h, n) == IF n = 0 THEN {h}
